@@ -432,6 +432,7 @@ class H2ConnModel:
 
     # -- API used by hypercorn ----------------------------------------------------------------
     def m_initiate_connection(self, interp, obj, args, kwargs, fr):
+        interp.unit_call_requires("H2Connection.initiate_connection", fr)
         return None
 
     def m_initiate_upgrade_connection(self, interp, obj, args, kwargs, fr):
